@@ -42,6 +42,47 @@ def rate_peers():
     return out
 
 
+def _garble_replies(how):
+    """Every key-exchange reply of every probe connection is replaced (the exception path of the host-key probe)."""
+    from harness import wire, fakenet
+
+    def mutate(k, kind, idx, data):
+        if kind != 'kexreply':
+            return [data]
+        if how == 'disconnect':
+            return [wire.frame(bytes([1]) + wire.u32(2) + wire.string(b'bye') + wire.string(b''))]
+        if how == 'truncated-blob':
+            return [wire.frame(bytes([data[5]]) + wire.u32(64) + b'\x00\x00\x00\x0bssh-ed25519')]
+        if how == 'eof':
+            return [fakenet.EOF]
+        return [data]
+    return mutate
+
+
+def footprint_peers():
+    """Peers chosen for what could inflate the footprint: repeated names in the host-key list (with every kind of probe
+    reply), peers that refuse both protocol versions, SSH-1 peers (the fallback makes a second handshake connection)."""
+    out = []
+    base = c09.archetypes()['dropbear']
+    for how in ('plain', 'disconnect', 'truncated-blob', 'eof'):
+        c = peers.ServerCfg(base)
+        c['kexinit'] = dict(base['kexinit'], key=['ssh-ed25519'] * 12 + ['rsa-sha2-256'] * 5 + ['ssh-ed25519', 'rsa-sha2-512'])
+        c['hostkeys'] = dict(base['hostkeys'], **{'rsa-sha2-512': base['hostkeys']['rsa-sha2-256']})
+        if how != 'plain':
+            c['mutate'] = _garble_replies(how)
+        out.append(('repeated-hostkey-names/' + how, c, []))
+    for name, (cfg, role, xargs) in c09.other_archetypes().items():
+        if role == 'server':
+            for extra in ([], ['-1'], ['-2']):
+                out.append(('%s/args=%s' % (name, ''.join(extra) or 'default'), cfg, extra))
+    stub = peers.ServerCfg(banner=b'SSH-1.5-Stubborn_1.0', wrong_version_always=True)
+    stub2 = peers.ServerCfg(banner=b'SSH-2.0-Stubborn_2.0', wrong_version_always=True)
+    for extra in ([], ['-1'], ['-2']):
+        out.append(('refuses-both-versions/args=%s' % (''.join(extra) or 'default'), stub, extra))
+        out.append(('refuses-both-versions-ssh2-banner/args=%s' % (''.join(extra) or 'default'), stub2, extra))
+    return out
+
+
 def run(tier):
     ck = common.Check('C19', tier)
     rnd = random.Random(ck.seed)
@@ -73,6 +114,10 @@ def run(tier):
             meta.append(('rate/%s/rtt=%g' % (what, rtt), cfg, False))
         scs.append({'argv': ['-n', '--skip-rate-test', HOST], 'servers': {(HOST, 22): cfg}})
         meta.append(('rate/%s/skipped' % what, cfg, True))
+    for what, cfg, extra in footprint_peers():
+        scs.append({'argv': ['-n'] + extra + [HOST], 'servers': {(HOST, 22): cfg}})
+        meta.append(('footprint/' + what, cfg, False))
+    roles = {}
     # the fault family of C09, with the rate check on (quick: a sample)
     fsc, fmeta, _ = c09.build('quick', rnd)
     idx = list(range(len(fsc)))
@@ -87,10 +132,11 @@ def run(tier):
         sc['argv'] = [a for a in sc['argv'] if a != '--skip-rate-test']
         scs.append(sc)
         meta.append(('fault/' + m[0] + '/' + m[1], m[3], False))
+        roles[len(meta) - 1] = c09.arch_opts(m[0])['role']
     results = runner.run_many(scs)
     items = []
     import re
-    for sc, (what, cfg, skip), r in zip(scs, meta, results):
+    for j, (sc, (what, cfg, skip), r) in enumerate(zip(scs, meta, results)):
         ck.evaluated()
         if r.get('harness_error'):
             raise common.Machinery('run failed: %r' % r['harness_error'])
@@ -100,17 +146,22 @@ def run(tier):
             items.append(None)
             continue
         ck.nontrivial(what)
-        srv = audit.srv_of(cfg, skip, dh)
+        srv = audit.srv_of(cfg, skip, dh, argv=sc['argv'], role=roles.get(j, 'server'))
         mb = re.search(r'^\(gen\) banner: (.*)$', r.get('stdout') or '', re.M)
         if mb:
             srv['openssh'] = 'OpenSSH' in mb.group(1)
-        if what.startswith('fault/') and r.get('exit') in (0, 2, 3) and 'conn1/' in what:
+        if what.startswith('fault/') and r.get('exit') in (0, 2, 3) and 'conn1/' in what and srv['proto'] == '2':
             srv = audit.srv_from_report(r, srv, dh)
         items.append((srv, r))
         # direct counts (what the invariants say, read off the raw connection log)
         evs = r['events']
         nb = [e for e in evs if e.get('ev') == 'connect' and e.get('nb')]
         replay = {'scenario': what, 'argv': sc['argv'], 'exit': r.get('exit'), 'nconn': r.get('nconn'), 'stdout': (r.get('stdout') or '')[-1500:]}
+        others = [e for e in evs if e.get('ev') == 'connect' and not e.get('nb')]
+        # one handshake (two with the SSH-1 fallback), one per distinct probed host-key type, at most 9 per group-exchange algorithm
+        bound = 2 + len(set(srv['hk'])) + 9 * len(srv['gex'])
+        if len(others) > bound:
+            ck.violation('probe-connections-exceed-bound', '[%s] %d handshake/probe connections; the bound for this peer is %d' % (what, len(others), bound), replay)
         if len(nb) > 38:
             ck.violation('rate-connections n>38', '[%s] the rate check opened %d connections' % (what, len(nb)), replay)
         if skip and nb:
